@@ -68,6 +68,18 @@ func buildPlan(id string, pinned map[string]string, tier string) *Plan {
 			"secp256k1 (different decoder shape) and twisted-Edwards point decoding: not under contract (twistededwards.PointAffine.SetBytes has no rejection path at all: see DESIGN.md findings)"}
 		p.Note = "G1Affine.setBytes / unsafeSetCompressedBytes of every curve with the generated decoder: a nil error is returned only if the flag pattern is valid, the coordinates decoded canonically, infinity encodings are all-zero, an uncompressed point passed the subgroup test or (when disabled) the on-curve test, a compressed point has Y = +-sqrt(X^3+b) with the sign selected by the flag and passed the subgroup test when enabled; byte counts match; short buffers give errors (no panic: all slice bounds are obligations)."
 		return p
+	case "C17":
+		p := &Plan{ID: id}
+		p.Units = append(p.Units, Unit{Pkg: "./field/koalabear/vortex", Tags: "", Groups: []string{"verifier"}})
+		for _, pk := range pedersenPkgs("/repo") {
+			p.Units = append(p.Units, Unit{Pkg: pk, Tags: "", Groups: []string{"pedersen"}})
+		}
+		p.Trusted = []string{"opaque calls: every callee is treated as returning arbitrary values and assumed not to write through its arguments (setter-style methods write their receiver)",
+			"IsInSubGroup is declared pure (a deterministic predicate of the point)", "the set of checks each scheme prescribes is written in the contracts from the schemes' definitions; its cryptographic sufficiency is not proved"}
+		p.NotCovered = []string{"completeness (honest proofs are accepted) is not under contract", "SHPLONK, fflonk, permutation, plookup, FRI, mpcsetup verifiers: not under contract",
+			"Pedersen BatchVerifyMultiVk: the equality of the G2 parameters across keys and the exact arguments of the folded pairing check are not under contract (slices of structs are not modelled); an empty batch is excluded by precondition (it panics)"}
+		p.Note = "Acceptance-implies-check: Vortex Params.Verify returns nil only if uAlpha evaluated at the point equals the folded claims, uAlpha is a codeword, the numbers of opened columns and proofs match, and every selected column is in range, consistent with uAlpha, SIS-hashed and Merkle-authenticated (end-of-iteration obligation on every iteration). Pedersen Verify: both points pass the subgroup test and the pairing check is made on exactly (commitment, pok) x (GSigmaNeg, G); BatchVerifyMultiVk: every commitment and every proof passes the subgroup test (quantified loop invariants over a shape-independent iteration counter), lengths agree, the pairing check result is honoured."
+		return p
 	case "C15":
 		p := &Plan{ID: id}
 		p.Units = append(p.Units, Unit{Pkg: "./fiat-shamir", Tags: "", Groups: []string{"transcript"}})
